@@ -95,7 +95,7 @@ func runMutant(id, patch string) (failed []string, errs []string, err error) {
 	stats := &solverStats{byBack: map[string]int{}}
 	solveAll(cfg, all, stats)
 	for _, o := range all {
-		if !o.Discharged {
+		if !o.Discharged && forProperty(o.Name, id) {
 			failed = append(failed, o.Name)
 		}
 	}
